@@ -104,14 +104,14 @@ def run(tier, seed):
         ck.count()
         for x in ch: kinds[x] = kinds.get(x, 0) + 1
         c = next(mi) if r['edits'] else {}
-        case = {'doc': {x: d[x] for x in ('stories', 'comments', 'next_uid', 'rpr_table')}, 'text': t0, 'modified': tm, 'edits': [list(e) for e in r['edits']]}
+        case = {'doc': A.doc_core(d), 'text': t0, 'modified': tm, 'edits': [list(e) for e in r['edits']]}
         fail = None
         if r['err']: fail = 'pipeline raised ' + r['err']
         elif r['r']['sk'] != 0: fail = '%d of %d computed edits were skipped' % (r['r']['sk'], len(r['edits']))
         elif strip_markers(r['final']) != strip_markers(tm): fail = 'accepted result differs from the rewritten text: ' + json.dumps(docrun.first_diff(strip_markers(tm), strip_markers(r['final'])))
         if fail:
             reg = region(c, r['edits'], t0)
-            if not reg and J.bold_led_para(d) and not r['err'] and re.sub(r'(?m)^#+ ', '', strip_markers(r['final'])) == re.sub(r'(?m)^#+ ', '', strip_markers(tm)): reg = ('D42', 'the "## " prefix of an all-caps bold paragraph is a function of its text: an edit that changes the capitals changes the prefix')
+            if not reg and J.bold_led_para(d) and not r['err'] and J.unhead(strip_markers(r['final'])) == J.unhead(strip_markers(tm)): reg = ('D42', 'the "## " prefix of an all-caps bold paragraph is a function of its text: an edit that changes the capitals changes the prefix')
             f, kn = J.classify(c, fail) if not reg else (fail, reg)
             if kn and kn[0] == 'D29b': kn = ('D29', kn[1])
             if kn: ck.known(kn[0], kn[1], case)
